@@ -363,6 +363,12 @@ func (g *Gen) genParams() *ParamsOp {
 		g.x.stats.inc("fault_deposit_param_change")
 		return p
 	}
+	if g.cfg.Property == "C20" && g.chance(0.15) {
+		p.MinDeposit = pickI64(g, []int64{1, 1000})
+		p.MinDepositDenom = pickStr(g, []string{"uiris", "atom"})
+		g.x.stats.inc("fault_min_deposit_other_denom")
+		return p
+	}
 	switch g.pick(4) {
 	case 0:
 		p.ServiceFeeTax = pickStr(g, []string{"0", "0.01", "0.1", "0.5", "0.999999"})
